@@ -523,7 +523,10 @@ func readStore(models string, hash bool) storeState {
 	return st
 }
 
-func blobFile(digest string) string { return strings.Replace(digest, ":", "-", 1) }
+// blobFile is the name of the file a digest refers to. Hex digits are folded to lower case: the store names its
+// files with %x, and an implementation that accepts another spelling of a digest and resolves it to that file is
+// consistent as long as its own reference scans do the same (which the invariants check through their effects).
+func blobFile(digest string) string { return strings.ToLower(strings.Replace(digest, ":", "-", 1)) }
 
 // checkManifest verifies that every layer + config of a manifest file is present with the right size and hash.
 func checkManifest(models string, raw []byte) (m manifestDoc, problems []string, parsed bool) {
@@ -548,7 +551,7 @@ func checkManifest(models string, raw []byte) (m manifestDoc, problems []string,
 		if int64(len(b)) != l.Size {
 			problems = append(problems, fmt.Sprintf("layer %s has %d bytes, manifest says %d", short(l.Digest), len(b), l.Size))
 		}
-		if got := sha(b); got != strings.Replace(l.Digest, "sha256-", "sha256:", 1) {
+		if got := sha(b); got != strings.ToLower(strings.Replace(l.Digest, "sha256-", "sha256:", 1)) {
 			problems = append(problems, fmt.Sprintf("layer %s content hashes to %s", short(l.Digest), short(got)))
 		}
 	}
